@@ -41,6 +41,10 @@ void vp_c19_set_digest(char *ba) { c19_digest = qad_ref(C19_QBD(ba)); }
 #define C19_H(self) (*(struct c19_hash**)(self))
 void _ZN18QCryptographicHashC1ENS_9AlgorithmE(char *self, uint32_t alg) { struct c19_hash *h = malloc(sizeof(struct c19_hash)); ASSUME(h != 0); h->alg = alg; h->n = 0; h->ncalls = 0; h->nresult = 0; C19_H(self) = h; }
 void _ZN18QCryptographicHashC2ENS_9AlgorithmE(char *self, uint32_t alg) { _ZN18QCryptographicHashC1ENS_9AlgorithmE(self, alg); }
+/* reset(): the data fed so far is forgotten (faithful: the ghost log restarts); counted so that a harness can see it */
+static uint32_t c19_hash_resets;
+uint32_t vp_c19_hash_resets(void) { return c19_hash_resets; }
+void _ZN18QCryptographicHash5resetEv(char *self) { struct c19_hash *h = C19_H(self); h->n = 0; c19_hash_resets++; }
 void _ZN18QCryptographicHashD1Ev(char *self) { }
 void _ZN18QCryptographicHashD2Ev(char *self) { }
 static void c19_hash_add(char *self, const uint8_t *p, uint32_t n, uint32_t hint) { struct c19_hash *h = C19_H(self); h->ncalls++; ASSERT(h->n + n <= C19_HCAP, "C19 hash log capacity");
